@@ -20,6 +20,7 @@ EXTENDS Integers, Sequences, TLC, Json, FiniteSets
 CONSTANTS MaxLen,      \* longest enumerated buffer
           Alphabet,    \* set of byte values used to build buffers
           First,       \* partition: only buffers whose first byte is in First (256 = the empty buffer)
+          Second,      \* partition: ... and whose second byte is in Second (256 = the buffers shorter than two bytes)
           Family       \* "all": every string over Alphabet up to MaxLen;  "kw": keyword spellings +-1 char in contexts
 
 VARIABLES buf, out     \* the buffer and its token lists in the four modes (out = OutOf(buf))
@@ -161,8 +162,12 @@ KwPrefix == { <<>>, <<32>>, <<Letter>>, <<NL>>, <<DOLLAR>>, <<255>>, <<32, 32>> 
 KwSuffix == { <<>>, <<32>>, <<COLON>>, <<NL>>, <<CR, NL>>, <<255>>, <<128>>, <<DOLLAR>>, <<EQUALS>>, <<32, Letter, NL>> }
 KwStrs == { p \o w \o x : p \in KwPrefix, w \in KwVariants, x \in KwSuffix }
 
-InPart(s) == IF s = <<>> THEN 256 \in First ELSE s[1] \in First
-Domain == IF Family = "kw" THEN KwStrs ELSE { s \in Strs : InPart(s) }
+StrsUpTo(k) == UNION { [1..n -> Alphabet] : n \in 0..k }
+Part ==    \* the buffers of this partition, built from their first two bytes
+  (IF 256 \in First THEN {<<>>} ELSE {})
+  \cup (IF 256 \in Second /\ MaxLen >= 1 THEN { <<a>> : a \in First \ {256} } ELSE {})
+  \cup { <<a, b>> \o t : a \in First \ {256}, b \in Second \ {256}, t \in StrsUpTo(MaxLen - 2) }
+Domain == IF Family = "kw" THEN KwStrs ELSE Part
 
 OutOf(s) == [ i |-> s, N |-> Tokens(s, "N"), I |-> Tokens(s, "I"), P |-> Tokens(s, "P"), V |-> Tokens(s, "V") ]
 Init == buf \in Domain /\ out = OutOf(buf)
